@@ -10,3 +10,11 @@ CHECKS = {
         assumptions=["oracle is math/big arithmetic on cur*10^18+supp", "aliasing of from/to pointers is not exercised"],
     ),
 }
+
+CHECKS["C20"] = dict(
+    test="TestC20", level="exploration", exhaustive_part=True,
+    exhaustive_part_text="per sampled wallet: every truncation length 0..len, every byte position x {0x01,0x80,0xFF}, every single-bit wrong key, wrong-key catalogue",
+    quick=dict(shards=4, checks=1500, timeout=300),
+    thorough=dict(shards=16, checks=40000, timeout=1500),
+    assumptions=["AES-GCM authentication is trusted to reject what it rejects; the check only observes outcomes", "wallet keys derived from drawn seeds via ed25519.NewKeyFromSeed"],
+)
